@@ -1,12 +1,110 @@
 from lib import translate_derive
 
+import os
+import re
+
+
+def search(run):
+    """Failing-input search when an obligation broke (a codec the translator can no longer read, a generated schema
+    outside the fragment of the theorem, ..) and the regular run saw no violation: many more generated values of
+    exactly the types the translator complained about and of the types that contain them, on the implementation
+    with its round-trip oracle. Returns the first violation that is not a known finding."""
+    from lib import core
+    tr = translate_derive.Translator(core.REPO)
+    tr.run(translate_derive.claimed_names())
+    names = sorted({u.split(":")[0].strip() for u in tr.unknowns})
+    broken = " ".join(b.get("detail", "") + " " + b.get("name", "") for b in run.broken)
+    names += [d for d, _ in tr.rust_table if re.search(r"\b" + re.escape(d.replace(".", "_")) + r"\b", broken) and d not in names]
+    if not names or not os.path.exists(core.PVH):
+        return None
+    findings = core.load_findings(run.prop)
+    old = os.environ.get("PV_SCHEMA_ONLY")
+    os.environ["PV_SCHEMA_ONLY"] = ",".join(names)
+    try:
+        for k in range(1, 7):
+            rc, ops, err = core.sh([core.PVH, "gen", "schema", "--seed", str(run.seed + 7000 * k), "--cases", "4000", "--tier", run.tier], timeout=900)
+            if rc != 0 or not ops:
+                return None
+            impl, model, problems = core.run_pair("schema", ops, timeout=1800)
+            for r in core.compare(ops, impl, model):
+                for key, detail in r.viols:
+                    if not any(re.search(f["key_regex"], key) for f in findings):
+                        return {"stream": "schema", "key": key, "detail": detail, "case": r, "source": f"search PV_SCHEMA_ONLY={','.join(names)} seed={run.seed + 7000 * k}"}
+    finally:
+        if old is None:
+            os.environ.pop("PV_SCHEMA_ONLY", None)
+        else:
+            os.environ["PV_SCHEMA_ONLY"] = old
+    return None
+
+
+def extra(run):
+    """Decoding of mutated encodings (stream `schemamal`), compared in ONE direction: whenever the strict model
+    decoder accepts an input, pallas must accept it with the same value. The converse is outside the tie (pallas
+    reads through mismatched container heads in its hand-written codecs, ignores trailing bytes, and minicbor-derive
+    swallows unknown-variant errors of Option fields); how often that happened is recorded in the evidence."""
+    import collections
+    from lib import core
+    n = 1120 if run.tier == "quick" else 44800
+    rc, ops, err = core.sh([core.PVH, "gen", "schemamal", "--seed", str(run.seed), "--cases", str(n), "--tier", run.tier], timeout=1800)
+    if rc != 0:
+        run.broken.append({"kind": "correspondence", "name": "stream schemamal", "detail": "generator failed: " + err[-300:]})
+        return
+    impl, model, problems = core.run_pair("schemamal", ops, timeout=3600)
+    for p in problems:
+        run.broken.append({"kind": "correspondence", "name": "stream schemamal", "stream": "schemamal", "detail": p})
+    st = collections.Counter()
+    for r in core.compare(ops, impl, model, model_only=True):
+        run.evaluations += 1
+        bad = None
+        for k, op in enumerate(r.ops):
+            i = r.impl[k] if k < len(r.impl) else "<none>"
+            m = r.model[k] if k < len(r.model) else "<none>"
+            if i == "panic":
+                c = "impl-panic"
+            elif m.startswith("ok") and any(t.startswith("a") for t in m.split()[1:]):
+                c = "model-accepts-value-with-opaque-plutusdata (not compared)"
+            elif m.startswith("ok") and i == m:
+                c = "both-accept-same-value"
+            elif m.startswith("ok"):
+                c, bad = "MODEL-ACCEPTS-IMPL-DIFFERS", k
+            elif i.startswith("ok"):
+                c = "impl-accepts-model-rejects (outside the tie)"
+            else:
+                c = "both-reject"
+            st[c] += 1
+        if bad is not None:
+            r.diff_at = bad
+            run.broken.append({"kind": "correspondence", "name": "stream schemamal", "stream": "schemamal", "case": r,
+                               "detail": f"case {r.cid} op#{bad} `{r.ops[bad][:200]}`: the model decoder accepts (`{r.model[bad][:200]}`) but pallas "
+                                         f"answers `{r.impl[bad][:200]}`"})
+        else:
+            run.traces_ok += 1
+    run.extra_cov["mutated_input_decoding"] = {"cases": n, "inputs": sum(st.values()), "classes": dict(st),
+                                               "relation": "model accepts => implementation accepts with the same value"}
+    run.streams_run.append({"stream": "schemamal", "seed": run.seed, "cases": n})
+    # hypothesis of C06_chain_iso_partial evaluated on the corpus: is each artefact canonical for its schema?
+    cs = next((x for x in SPEC["streams"] if x["name"] == "chain"), None)
+    if cs:
+        rc, cops, err = core.sh([core.PVH, "gen", "chain", "--seed", str(run.seed), "--cases", str(cs.get(run.tier, cs["quick"])), "--tier", run.tier], timeout=1800)
+        if rc == 0 and cops:
+            rc2, out, err2 = core.sh([core.DRIVER, "chaincanon"], inp=cops, timeout=7200)
+            cc = collections.Counter(l for _, ls in core.parse_blocks(out) for l in ls)
+            run.extra_cov["chain_canonical"] = {"artefacts": sum(cc.values()), "classes": dict(cc),
+                                                "meaning": "`ok canonical` = the artefact decodes and satisfies `canon` (Model/SchemaCanon.lean), so "
+                                                           "C06_chain_iso_partial proves that the model re-encodes it to the same item"}
+
+
 SPEC = {
+    "search": search,
+    "extra": extra,
     "id": "C06",
     "level": "proof",
     "lean_modules": ["PallasVerif.Props.C06"],
     "required_theorems": ["schema_roundtrip", "schema_roundtrip_exact", "C06_roundtrip_partial", "C06_roundtrip_exact_partial",
                           "translator_complete", "table_ok", "env_valid", "keepraw_reencodes", "keepraw_iso_bytes",
-                          "vec_keepraw_reencodes", "vec_never_indefinite", "block_shapes", "C06_block_iso_partial"],
+                          "vec_keepraw_reencodes", "vec_never_indefinite", "block_shapes", "C06_block_iso_partial",
+                          "customs_iso", "C06_chain_iso_partial", "C06_chain_iso_bytes_partial"],
     "translators": [translate_derive.translate],
     "streams": [{"name": "schema", "quick": 1120, "thorough": 56000},
                 {"name": "chain", "quick": 20, "thorough": 2000, "timeout": 7200}],
@@ -29,12 +127,17 @@ SPEC = {
         "Model/SchemaHand.lean: RationalNumber and Conway CostModels written by hand from the source (the translator checks the source still has that shape)",
     ],
     "assumptions": [
-        "dec is a tree reading of minicbor's sequential decoder: equal on items whose container heads match their content (all encoder outputs, all chain data); "
-        "where minicbor reads through a mismatched head, leaves the break of an indefinite array unread (hand-written sums), or swallows an unknown-variant "
-        "error of an Option field (minicbor-derive), the model rejects",
+        "dec is a tree reading of minicbor's sequential decoder. Tie on decoding: (i) exact agreement (accept/reject and value) on every encoder output, on "
+        "well-formedness preserving re-encodings of them (wider heads, indefinite maps, repeated last map entry) and on the whole chain corpus; (ii) on "
+        "mutated inputs (stream schemamal: foreign sub-items, lengthened/shortened arrays, changed variant numbers / keys, byte flips, truncation) only "
+        "`model accepts => pallas accepts with the same value`. Outside the tie: inputs the model rejects and pallas accepts - hand-written codecs that do "
+        "not compare the array length with what they read (Relay, RationalNumber, Byron sums, the many-field arm of codec_by_datatype!), unit variants of "
+        "flat enums followed by surplus elements, the unread break of an indefinite array in hand-written sums, trailing bytes, minicbor-derive swallowing "
+        "an unknown-variant error of an Option field, input that is not well-formed CBOR; their number per run is in the evidence "
+        "(coverage.mutated_input_decoding)",
         "PlutusData is an opaque well-formed item here (its codec is C07's subject); generated values are built in memory (KeepRaw::from, empty raw); "
         "raw-carrying values are exercised through the chain corpus",
-        "value invariants the Rust types enforce or document are part of the value domain: NonZeroInt != 0, BTreeMap keys strictly increasing "
+        "value invariants the Rust types enforce or document are part of the value domain: NonZeroInt != 0, PositiveCoin != 0, BTreeMap keys strictly increasing "
         "in the derived Ord, String is valid UTF-8, Conway CostModels.unknown holds language ids >= 3, Byron TxIn/Twit/TxFeePol::Other carries a "
         "variant number that no listed variant uses (source comments `u8 .ne 0` / `.gt 2`; TxIn::Other(0, b) would decode as Variant0)",
     ],
